@@ -73,6 +73,7 @@ type c40run struct {
 	extra     map[string]int
 	work      []string
 	mapPerms  int
+	big       bool
 	failure   *simrt.Failure
 	cleanup   string
 }
@@ -142,8 +143,31 @@ func (c40) NewRun(plan *simrt.Source, job *harn.Job) harn.Run {
 		}
 		r.producers = append(r.producers, ops)
 	}
+	if plan.Chance(40) {
+		// a burst: far more directories pending at once than usual (a branch
+		// switch, an unpacked archive), reported faster than they are fetched
+		r.big = true
+		r.producers, r.trees = nil, nil
+		np = 2 + plan.Draw(2)
+		per := 30 + plan.Draw(40)
+		for p := 0; p < np; p++ {
+			var ops []op
+			for i := 0; i < per; i++ {
+				ops = append(ops, op{"report", fmt.Sprintf("m%d_%03d/x.go", p, i)})
+				if plan.Chance(100) {
+					ops = append(ops, op{"report", fmt.Sprintf("m%d_%03d/y.go", p, plan.Draw(i+1))})
+				}
+			}
+			r.producers = append(r.producers, ops)
+		}
+		nf = 1 + plan.Draw(2)
+		budget = 1 << 20
+	}
 	for f := 0; f < nf; f++ {
 		n := 1 + plan.Draw(5)
+		if r.big {
+			n = 5 + plan.Draw(25)
+		}
 		if n > budget {
 			n = budget
 		}
@@ -340,7 +364,11 @@ func (r *c40run) OnQuiesce(s *simrt.Sim, _ int) bool {
 	case 2:
 		// Sweep whatever is left, then block: the final observation must be empty.
 		simrt.Go("sweeper", func() {
-			for i := 0; i < 64; i++ {
+			n := 64
+			if r.big {
+				n = 400
+			}
+			for i := 0; i < n; i++ {
 				r.fetch(300, false)
 				r.drained++
 			}
